@@ -484,6 +484,6 @@ def _direct(fl, b, op, depth=0):
 def run(chk, fb, tier):
     rule_encrypt(chk, fb)
     rule_shapes(chk, fb)
-    rule_password_passthrough(chk, fb, "C14.e", ["helper::crypt::encrypt"], 3)
+    rule_password_passthrough(chk, fb, "C14.e", ["helper::crypt::encrypt"], 2)
     chk.assume("aes/cbc/sha2/hmac crates implement AES-256-CBC, SHA-512 and HMAC; getrandom yields uniformly random bytes")
     chk.note("not decided: that the produced bytes decrypt under an independent implementation (digest/cipher values)")
